@@ -161,6 +161,34 @@ pub fn initial_states_d(t: Tier, with_big: bool) -> Vec<(Init, usize)> {
             }
         }
     }
+    // layout grid (depth 2): every combination of empty / non-empty record sections, with and without OPT,
+    // names compressed within their own section, one record of class CH
+    for mask in 0..8u8 {
+        for with_opt in [false, true] {
+            let mut m = base_msg(&ba, T_A, true);
+            if mask & 1 != 0 {
+                m.an.push(a_rec(&nm("p.an"), 1, [1, 0, 0, 1]));
+                m.an.push(name_rec(&nm("q.p.an"), T_CNAME, 2, &nm("p.an")));
+            }
+            if mask & 2 != 0 {
+                let mut r = name_rec(&nm("p.ns"), T_NS, 3, &nm("q.p.ns"));
+                r.class = 3;
+                m.ns.push(r);
+                m.ns.push(mx_rec(&nm("q.p.ns"), 4, 1, &nm("p.ns")));
+            }
+            if mask & 4 != 0 {
+                m.ar.push(a_rec(&nm("p.ar"), 5, [1, 0, 0, 5]));
+                m.ar.push(name_rec(&nm("q.p.ar"), T_PTR, 6, &nm("p.ar")));
+            }
+            if with_opt {
+                m.ar.push(opt[1].clone());
+            }
+            let x = encode(&m, Strategy::Max);
+            if !v.iter().any(|(i, _)| matches!(i, Init::Packet(p) if *p == x)) {
+                v.push((Init::Packet(x), 2));
+            }
+        }
+    }
     // names at offsets where pointer bytes take special values (c1 00, c2 00) and packets longer than 256 bytes
     let al = aligned_pointer_packets();
     v.push((Init::Packet(al[5].clone()), 2)); // name at 256, with OPT
